@@ -250,12 +250,52 @@ def replay_known(ctx):
             ctx.notes.append("a stored known-finding example no longer fails: %r" % ex["doc"])
 
 
+def include_part(ctx):
+    """Pages assembled with the include directive: a definition written in an included file resolves uses in that file and in the page, a
+    definition of the page resolves uses in the included file, case / white-space variants included; the first definition in reading order wins."""
+    import mistune, tempfile, shutil, os, re
+    from mistune.directives import FencedDirective, RSTDirective, Include
+    n = 0
+    tmp = tempfile.mkdtemp(prefix="verif-c12-")
+    try:
+        def w(name, text):
+            with open(os.path.join(tmp, name), "w", encoding="utf-8") as f:
+                f.write(text)
+        for style in ("rst", "fenced"):
+            D = RSTDirective if style == "rst" else FencedDirective
+            inc = (lambda f: ".. include:: %s\n\n" % f) if style == "rst" else (lambda f: "```{include} %s\n```\n\n" % f)
+            md = mistune.create_markdown(plugins=[D([Include()])])
+            for label, var in [("foo", "FOO"), ("Foo Bar", "foo   bar"), ("\u00df", "SS"), ("q", "Q")]:
+                for where_def in ("inc", "page-before", "page-after", "both"):
+                    w("inc.md", "inc uses [%s] and [%s].\n\n" % (label, var) + ("[%s]: /from-inc\n" % label if where_def in ("inc", "both") else ""))
+                    page = ("[%s]: /from-page\n\n" % var if where_def in ("page-before", "both") else "") + "page uses [%s].\n\n" % var + inc("inc.md") + "tail uses [%s].\n" % label + \
+                           ("\n[%s]: /from-page\n" % var if where_def == "page-after" else "")
+                    w("page.md", page)
+                    try:
+                        html = md.read(os.path.join(tmp, "page.md"))[0]
+                    except Exception as e:
+                        ctx.fail("include:exception", "reading a page with an included file raised %r" % e, {"kind": "include", "style": style, "page": page}); continue
+                    n += 1
+                    hrefs = re.findall(r'<a href="([^"]*)"', html)
+                    # reading order: page-before < inc < page-after
+                    want = "/from-page" if where_def in ("page-before", "both", "page-after") else "/from-inc"
+                    if where_def == "both":
+                        want = "/from-page"
+                    if len(hrefs) != 4 or set(hrefs) != {want}:
+                        ctx.fail("include:definition-%s" % where_def, "page with an included file (%s syntax), definition of %r in %s: the four uses resolve to %r, expected four links to %s: %r" % (style, label, where_def, hrefs, want, html[:300]),
+                                 {"kind": "include", "style": style, "page": page, "inc": open(os.path.join(tmp, "inc.md")).read()})
+    finally:
+        shutil.rmtree(tmp, ignore_errors=True)
+    return n
+
+
 def run(ctx):
     ctx.broken += common.proof_stage(ctx, THEOREMS)
     replay_known(ctx)
     docs = ref_docs(ctx, 1500 if ctx.quick() else 15000)
     n1 = correspondence(ctx, docs)
     n2 = metamorphic(ctx, 250 if ctx.quick() else 3000)
+    n2 += include_part(ctx)
     if ctx.broken and not ctx.failures:
         ctx.notes.append("search mode entered")
         n2 += metamorphic(ctx, 4000)
